@@ -596,8 +596,10 @@ package main
 
 // C13: no client message can make the protobuf front end panic.
 //@ func pbCliDeserialize(pkt *pbx.ClientMsg) (msg *ClientComMessage)
-//@   requires [C13] pkt != nil
+//@   requires [C13,C20] pkt != nil
 //@   modifies *
+// (the `extra` block of a message - attachment list, acting-for user - survives conversion whenever it is present)
+//@   ensures [C20] extra_kept: pkt.Extra != nil ==> msg != nil && msg.Extra != nil && ref(msg.Extra.Attachments) == ref(pkt.Extra.Attachments) && len(msg.Extra.Attachments) == len(pkt.Extra.Attachments) && msg.Extra.AsUser == pkt.Extra.OnBehalfOf
 //@   nopanic
 //@   safe
 //@ func pbGetQueryDeserialize(in *pbx.GetQuery) (res *MsgGetQuery)
